@@ -11,9 +11,11 @@ REQUIRED_THEOREMS = ["record_roundtrip_dyn", "record_roundtrip_obs", "record_rou
                      "observe_after_restart_greater_crash", "observe_after_restart_greater_serial", "file_roundtrip_dyn",
                      "file_roundtrip_obs", "file_roundtrip_cnt", "dyn_added_pinned_loses_entries", "update_records_dyn_added",
                      "update_records_dyn_deleted", "update_records_obs_added", "update_records_obs_deleted",
-                     "update_records_cnt_track", "update_records_cnt_deleted", "update_other_files_untouched"]
-RULE = ("one case = one history (save_freq 1..10; events: create / delete a dynamic resource, register / re-register / cancel an "
-        "observation for one of 3 clients, notify, counter jump to the 24-bit wrap, clean restart) run through the real server "
+                     "update_records_cnt_track", "update_records_cnt_deleted", "update_other_files_untouched",
+                     "endpoint_search_finds", "endpoint_search_sound", "restart_restores_endpoints",
+                     "restart_restores_endpoints_after_crash"]
+RULE = ("one case = one history on a server context with 1..3 UDP endpoints (save_freq 1..10; events: create / delete a dynamic resource, register / re-register / cancel an "
+        "observation for one of 3 (9 with several endpoints: each client talks to one endpoint) clients, notify, counter jump to the 24-bit wrap, clean restart) run through the real server "
         "(coap_handle_dgram, coap_resource_notify_observers, coap_persist_startup) with stdio+rename wrapped; for EVERY event "
         "and EVERY wrapped call k a child is killed immediately before call k (and after the last), the files are read back and "
         "a fresh context restarted; non-trivial = history in which at least one persistence file was rewritten")
@@ -27,6 +29,7 @@ ASSUMPTIONS = ["process kill, not power loss: what was flushed/closed survives (
                "the three save files and their .tmp siblings have pairwise distinct names",
                "resource names contain no NUL, space or newline (guaranteed for dynamic resources: coap_get_uri_path() percent-escapes them) and fit fgets' 1500-byte buffer",
                "save_freq is the same before and after the restart",
+               "the restarted server has the same endpoints (protocol, bind address) as before; observations over UDP only (libcoap persists no others)",
                "compiled Lean definitions agree with the kernel's reading of them"]
 SPEC_DECISIONS = ["D17.1 re-registering an observation with a new token is a cancellation followed by a registration (two updates)",
                   "D17.2 'first Observe value sent after restart' = the first notification on a re-established observation",
@@ -45,8 +48,10 @@ MANIFEST = {
             "update_functional_* — new = old with the entry added / replaced / removed; restart_restores — by induction over every history "
             "the loaders re-create exactly the resources created−deleted and observations added−removed, also after a crash at any point of "
             "the last update (state before or after it); observe_after_restart_greater — every Observe value sent before the crash is below "
-            "the first one after restart (24-bit serial arithmetic, wrap hypothesis explicit). M is tied to the compiled code by an H-fs "
-            "harness: real server, stdio wrapped, a child killed before/after every wrapped call of every event, op log + files + restarted "
+            "the first one after restart (24-bit serial arithmetic, wrap hypothesis explicit); endpoint_search_finds / "
+            "restart_restores_endpoints — on a context with any number of endpoints the loader's endpoint search finds the endpoint an observation "
+            "came in through wherever it is in the list, so no observation is lost because of its endpoint. M is tied to the compiled code by an H-fs "
+            "harness: real server with 1..3 UDP endpoints, stdio wrapped, a child killed before/after every wrapped call of every event, op log + files + restarted "
             "state compared with M's prediction and with a property-level oracle.",
     "note": "partial: power-loss durability (no fsync) is outside the property and the model; rename atomicity and stdio buffering semantics "
             "are assumptions. Trusted: Lean kernel (+ propext, "
@@ -67,8 +72,9 @@ def harness(ctx):
 
 
 # --------------------------------------------------------------------------------------------- generator
-def gen_history(rng, space=False, wrap=False):
-    """space: include resource 5, the root resource (empty Uri-Path)"""
+def gen_history(rng, space=False, wrap=False, eps=False):
+    """space: include resource 5, the root resource (empty Uri-Path); eps: a server context with 1..3 UDP endpoints
+    (`persistep <f> <kinds> …`, 9 clients, client c talks to the endpoint at position (c // 3) % #endpoints)"""
     f = rng.choice([1, 1, 2, 2, 3, 4, 5, 7, 10, 10, rng.randint(1, 10)])
     nres = rng.choice([1, 2, 2, 3])
     pool = rng.sample(range(5), nres)
@@ -79,6 +85,15 @@ def gen_history(rng, space=False, wrap=False):
     if prefix_pair:
         pool = [0, 3] + [x for x in pool if x not in (0, 3)][:1]
     ncli = rng.choice([1, 2, 3])
+    clients = list(range(ncli))
+    head = "persist %d" % f
+    if eps:
+        kinds = rng.sample(range(3), rng.choice([1, 2, 2, 2, 3, 3]))
+        # clients spread over the endpoints; most of the time at least one on every endpoint
+        clients = rng.sample(range(3 * NCLI), rng.choice([2, 3, 3, 4]))
+        if rng.random() < 0.7:
+            clients = sorted(set(clients[:1] + [3 * p + rng.randrange(3) for p in range(len(kinds))]))
+        head = "persistep %d %s" % (f, "".join(map(str, kinds)))
     exists, obs = set(), {}
     ev = []
     n = rng.choice([3, 4, 5, 6, 6, 7, 8])
@@ -94,7 +109,7 @@ def gen_history(rng, space=False, wrap=False):
         steps += 1
         r = rng.random()
         i = rng.choice(pool)
-        c = rng.randrange(ncli)
+        c = rng.choice(clients)
         if steps == 2 and exists and rng.random() < 0.85:
             i = rng.choice(sorted(exists)); r = 0.3          # an observation early on, otherwise little is persisted
         if not exists or r < 0.16:
@@ -123,7 +138,9 @@ def gen_history(rng, space=False, wrap=False):
             ev.append("r")
         elif wrap or r < 0.98:
             ev.append("j%d.%d" % (i, rng.choice([16777215, 16777214, 16777216 - f, 16777210, 16777205, 8388607, 100, 0])))
-    return "persist %d %s" % (f, " ".join(ev[:14]))
+    if eps and "r" not in ev and rng.random() < 0.5:
+        ev = ev[:13] + ["r"]                       # the restart is what the endpoints matter for
+    return "%s %s" % (head, " ".join(ev[:14]))
 
 
 def generate(ctx, escalate=False):
@@ -134,6 +151,9 @@ def generate(ctx, escalate=False):
     out = []
     for k in range(n):
         out.append(gen_history(rng, space=(k % 8 == 7), wrap=(k % 10 == 3)))
+    # server contexts with several endpoints (every crash state is a restart with the same endpoints)
+    for k in range(n // 4):
+        out.append(gen_history(rng, space=(k % 8 == 5), wrap=(k % 10 == 3), eps=True))
     return out
 
 
@@ -187,13 +207,33 @@ def abstract_steps(ev, res, obs):
     return states
 
 
+def split_line(line):
+    """(head words incl. op, save_freq [and endpoint kinds]; event words)"""
+    w = line.split()
+    k = 3 if w and w[0] == "persistep" else 2
+    return w[:k], w[k:]
+
+
+def ep_note(head, S, want):
+    """for `persistep` cases: through which endpoint the observations that are missing (or sit on the wrong session: version 99)
+    after the restart had been registered"""
+    if len(head) < 3:
+        return ""
+    kinds = head[2]
+    have = set(((c, i), v) for (c, i, v) in S)
+    miss = sorted(k[0] for k in want - have)
+    if not miss:
+        return ""
+    return " [endpoints in creation order: kinds %s; missing/misplaced: %s]" % (kinds, ", ".join(
+        "client %d (endpoint #%d, kind %s)" % (c, (c // NCLI) % len(kinds), kinds[(c // NCLI) % len(kinds)]) for c in sorted(set(m[0] for m in miss))))
+
+
 def check_property(line, out):
     """all complaints of the property-level oracle about the implementation's output: list of (tag, resource, text)"""
     bad = []
     if out is None or not out.startswith("f="):
         return [("crash", -1, "harness: %s" % (out or "no output")[:200])]
-    words = line.split()
-    evs = words[2:]
+    _head, evs = split_line(line)
     found = EV_RE.findall(out)
     if len(found) != len(evs) or "bad-op" in out:
         return [("crash", -1, "harness output does not cover the history: %s" % out[-200:])]
@@ -255,12 +295,13 @@ def check_property(line, out):
             rs = (frozenset(R), frozenset(((c, i), v) for (c, i, v) in S))
             cand = [j for j, s in enumerate(steps) if s == rs and j >= idx]
             if not cand:
-                bad.append(("restart", subj, "%s: restart yields resources %s observations %s, allowed (in order) %s" % (
-                    where, sorted(R), sorted(S), [(sorted(s[0]), sorted(s[1])) for s in steps[idx:]])))
+                bad.append(("restart", subj, "%s: restart yields resources %s observations %s, allowed (in order) %s%s" % (
+                    where, sorted(R), sorted(S), [(sorted(s[0]), sorted(s[1])) for s in steps[idx:]], ep_note(_head, S, steps[-1][1]))))
             else:
                 idx = cand[0]
             if last and rs != steps[-1]:
-                bad.append(("restart", subj, "%s: event complete but restart yields %s %s" % (where, sorted(R), sorted(S))))
+                bad.append(("restart", subj, "%s: event complete but restart yields resources %s observations %s, expected %s %s%s" % (
+                    where, sorted(R), sorted(S), sorted(steps[-1][0]), sorted(steps[-1][1]), ep_note(_head, S, steps[-1][1]))))
             if last and (Dset != steps[-1][0] or Oset != steps[-1][1]):
                 bad.append(("functional", subj, "%s: event complete but files list %s %s, expected %s %s" % (
                     where, sorted(D), sorted(O), sorted(steps[-1][0]), sorted(steps[-1][1]))))
@@ -316,9 +357,9 @@ def nontrivial(c):
 
 
 def classify(c):
-    w = c["input"].split()
-    kinds = "".join(sorted(set(e[0] for e in w[2:])))
-    return "f%s:%s" % (w[1], kinds)
+    w, evs = split_line(c["input"])
+    kinds = "".join(sorted(set(e[0] for e in evs)))
+    return "f%s%s:%s" % (w[1], ("/ep" + w[2]) if len(w) > 2 else "", kinds)
 
 
 def known(ctx, c):
@@ -329,15 +370,15 @@ def search(ctx, tie_breaks, proof):
     rng = ctx.rng
     out = []
     for c in tie_breaks[:20]:
-        w = c["input"].split()
-        evs = w[2:]
+        w, evs = split_line(c["input"])
         for f in (1, 2, 3, 10):
-            out.append("persist %d %s" % (f, " ".join(evs)))
-            out.append("persist %d %s r %s" % (f, " ".join(evs), " ".join(e for e in evs if e[0] == "n")))
+            hd = " ".join([w[0], str(f)] + w[2:])
+            out.append("%s %s" % (hd, " ".join(evs)))
+            out.append("%s %s r %s" % (hd, " ".join(evs), " ".join(e for e in evs if e[0] == "n")))
         for k in range(1, len(evs)):
-            out.append("persist %s %s r" % (w[1], " ".join(evs[:k])))
+            out.append("%s %s r" % (" ".join(w), " ".join(evs[:k])))
     for k in range(300):
-        out.append(gen_history(rng, wrap=(k % 5 == 0)))
+        out.append(gen_history(rng, wrap=(k % 5 == 0), eps=(k % 3 == 1)))
     return out
 
 
@@ -345,20 +386,20 @@ def shrink(ctx, case):
     """greedy removal of events while the implementation still contradicts the property (and it is not the known finding)"""
     from vlib.runner import diff_side
     import props.C17 as me
-    w = case["input"].split()
-    f, evs = w[1], w[2:]
+    w, evs = split_line(case["input"])
+    head = " ".join(w)
     best = case
     changed, rounds = True, 0
     while changed and rounds < 8 and len(evs) > 1:
         changed = False; rounds += 1
         cands = [evs[:k] + evs[k + 1:] for k in range(len(evs))]
-        lines = ["persist %s %s" % (f, " ".join(e)) for e in cands]
+        lines = ["%s %s" % (head, " ".join(e)) for e in cands]
         for cc in diff_side(ctx, me, lines):
             v = judge(ctx, cc)
             if v and v[0] == "spec":
                 cc = dict(cc); cc["why"] = v[1]; cc.pop("_complaints", None)
                 best = cc
-                evs = cc["input"].split()[2:]
+                evs = split_line(cc["input"])[1]
                 changed = True
                 break
     best = dict(best); best.pop("_complaints", None)
